@@ -63,6 +63,22 @@ func joinCfgs(maxIn, maxItems, maxCap int) []obs.Cfg {
 	return cs
 }
 
+// threeInputCfgs: a small fixed set of 3-input configurations for the quick tier (every join form, both
+// directions, capacity 0; all close orders are the schedules) and the 3-item pipeline: defects that only
+// show with a third channel (e.g. a loop condition or case list that forgets the last one) need them.
+func threeInputCfgs() []obs.Cfg {
+	var cs []obs.Cfg
+	for _, comb := range []string{"joinchan", "joinslice", "joinvar"} {
+		for _, it := range [][]int{{0, 0, 1}, {1, 0, 0}, {0, 1, 0}, {1, 1, 1}} {
+			for _, f := range []string{"r", "s"} {
+				cs = append(cs, obs.Cfg{Comb: comb, Form: f, Items: it, Cap: 0})
+			}
+		}
+	}
+	cs = append(cs, obs.Cfg{Comb: "pipeline", Items: []int{3, 0}, Cap: 0}, obs.Cfg{Comb: "pipeline", Items: []int{3, 1}, Cap: 0})
+	return cs
+}
+
 func pipeCfgs(maxM, maxK, maxCap int) []obs.Cfg {
 	var cs []obs.Cfg
 	for m := 0; m <= maxM; m++ {
@@ -92,7 +108,7 @@ func simCfg(combs string, maxIn, maxItems, maxCap int) string {
 func checkC19(c *core.Ctx) error {
 	all := `"dup", "fmap", "joinchan", "joinslice", "joinvar", "pipeline"`
 	p := &plan{prop: "C19", procs: nprocs(), logRuns: 8, logLines: 120}
-	p.cfgs = append(append(linearCfgs(2, 2), joinCfgs(2, 2, 2)...), pipeCfgs(2, 2, 2)...)
+	p.cfgs = append(append(append(linearCfgs(2, 2), joinCfgs(2, 2, 2)...), pipeCfgs(2, 2, 2)...), threeInputCfgs()...)
 	p.mc = []mcRun{
 		{name: "dup,fmap: 0..2 items x cap 0..2", cfgText: mcCfg(`"dup", "fmap"`, 1, 2, 2, true)},
 		{name: "joinchan: 0..2 inputs x 0..2 items x cap 0..2", cfgText: mcCfg(`"joinchan"`, 2, 2, 2, true), workers: 4},
